@@ -45,6 +45,18 @@ def _c20_specs(seed, n, ref):
             spec['strategy'] = {'kind': 'focus', 'fns': wfns, 'p': 0.3}
             spec['instr_fn'] = wfns[i % 3]
             spec['focus_faults'] = [[0, 2 + i % 5, 'abort']]
+        elif i % 13 == 3:
+            # capacity-directed shape: the process is aged (child.pre_fill) while a container is watched, then a focus run
+            spec = gen.gen_sweep_base(s, c, ref, fams[(i * 5) % len(fams)])
+            spec['strategy'] = {'kind': 'focus', 'fns': wfns, 'p': 0.3}
+            spec['pre_fill'] = {'paths': ['mindsdb_sql.parser.ast.select.identifier.RESERVED_KEYWORDS'], 'delta': i % 5, 'tag': 'q%d' % (i % 3), 'max_ops': 150}
+        elif i % 13 == 1 and i % 2 == 1:
+            # abort-point shape: fault at a planned event of the first op, the same thread goes on
+            spec = gen.gen_s2(s, c, ref)
+            spec['clients'] = [spec['clients'][0][:5]]
+            spec['faults'] = [[0, 0, 1 + (i * 37) % 900, 'abort' if i % 3 else 'mem']]
+            spec['gcs_at'] = []
+            spec['lazy_events'] = True
         elif i % 13 == 11:
             # tree histories: every dialect name on one shared tree per statement
             ths = gen.gen_tree_histories(s, c, True)
